@@ -464,4 +464,5 @@ func TestC17(t *testing.T) {
 	hx.Run(s, c17Other, s.N(20000, 150000))
 	hx.Run(s, c17Tuple, s.N(20000, 150000))
 	hx.Run(s, c17Lookup, s.N(6000, 60000))
+	hx.Run(s, c17Filter, s.N(1000, 10000))
 }
